@@ -294,6 +294,77 @@ theorem var_undefined_invalid (P : Params) (prop sh v : String)
       expandVar, resFallback]
   simp [cascadePending, this]
 
+/-! ### the cycle guard is path based: it never cuts a second, legal reference -/
+
+/-- sibling independence: every token of a value is resolved with the same set of custom properties
+    in progress, whatever was substituted before it (a guard remembering every name ever visited
+    would break this) -/
+theorem siblings_independent (env : Bindings) (a b : List Tok) :
+    solveTokens env (a ++ b) = solveTokens env a ++ solveTokens env b :=
+  resList_append _ _ a b
+
+/-- a value written twice resolves to the result written twice: repeated references are legal -/
+theorem repeated_reference (env : Bindings) (ts : List Tok) :
+    solveTokens env (ts ++ ts) = solveTokens env ts ++ solveTokens env ts :=
+  resList_append _ _ ts ts
+
+/-- the same inside the value of another custom property, a function or a fallback (any in-progress set) -/
+theorem repeated_reference_nested (e : String → List String → Option (List Tok)) (ip : List String) (ts : List Tok) :
+    resList e ip (ts ++ ts) = resList e ip ts ++ resList e ip ts :=
+  resList_append e ip ts ts
+
+/-- `acyclic_never_cut` (depth one, any path): a reference to a defined custom property with a var()-free
+    value is cut ONLY when its own name is in progress; otherwise it is its value, whatever else is in
+    progress -/
+theorem acyclic_never_cut_partial (env : Bindings) (ip : List String) (v : String) (args rest val : List Tok)
+    (hname : hasPrefix "--" v = true)
+    (hargs : parseArgs args false = some (.ident v :: rest))
+    (hnot : ip.contains v = false)
+    (hdef : env.lookup v = some val) (hne : val ≠ []) (hplain : hasVarList val = false) :
+    resTok (expandVar env) ip (.fn "var" args) = some val := by
+  have hv : hasVar (.fn "var" args) = true := by
+    simp [hasVar, hargs, headIsVarName, hname, show lower "var" = "var" by decide]
+  have hnot' : v ∉ ip := by simpa using hnot
+  simp only [resTok, hv, hargs, show lower "var" = "var" by decide]
+  simp [hnot', expandVar_some env v (v :: ip) val hdef hne, resList_plain _ _ val hplain]
+
+/-
+  acyclic_never_cut (full statement, NOT proved): for an environment without dependency cycle and any
+  token list, no reference is cut, i.e. solveTokens env ts is the textual substitution (specResolve)
+  even with repeated references and diamond-shaped graphs.  Proved: the depth-one case for every
+  in-progress set (above), sibling independence at every level (siblings_independent,
+  repeated_reference_nested) and the concrete diamond / repeated shapes below, which agree with the
+  specification.  Missing: the induction over the dependency rank through resTok/resList/resFallback.
+-/
+
+/-- `--pair: var(--x) var(--x)`; `margin: 1px 2px var(--pair)`: model = specification -/
+theorem repeated_in_variable_agrees_with_spec :
+    solveTokens [("--x", [.dim "3" "px"]), ("--pair", [.fn "var" [.ident "--x"], .fn "var" [.ident "--x"]])]
+        [.dim "1" "px", .dim "2" "px", .fn "var" [.ident "--pair"]]
+      = [.dim "1" "px", .dim "2" "px", .dim "3" "px", .dim "3" "px"] ∧
+    specResolve [("--x", [.dim "3" "px"]), ("--pair", [.fn "var" [.ident "--x"], .fn "var" [.ident "--x"]])] 100
+        [.dim "1" "px", .dim "2" "px", .fn "var" [.ident "--pair"]]
+      = .toks [.dim "1" "px", .dim "2" "px", .dim "3" "px", .dim "3" "px"] := by
+  constructor
+  · c08_eval
+  · rfl
+
+/-- diamond `--a → --b, --c → --d`, a function with two references, a fallback reusing a variable -/
+theorem diamond_agrees_with_spec :
+    solveTokens [("--d", [.dim "1" "px"]), ("--b", [.fn "var" [.ident "--d"]]), ("--c", [.fn "var" [.ident "--d"]]),
+                 ("--a", [.fn "var" [.ident "--b"], .fn "var" [.ident "--c"]])]
+        [.fn "var" [.ident "--a"], .fn "f" [.fn "var" [.ident "--d"], .lit ",", .fn "var" [.ident "--d"]],
+         .fn "var" [.ident "--u", .lit ",", .fn "var" [.ident "--d"]]]
+      = [.dim "1" "px", .dim "1" "px", .fn "f" [.dim "1" "px", .lit ",", .dim "1" "px"], .dim "1" "px"] ∧
+    specResolve [("--d", [.dim "1" "px"]), ("--b", [.fn "var" [.ident "--d"]]), ("--c", [.fn "var" [.ident "--d"]]),
+                 ("--a", [.fn "var" [.ident "--b"], .fn "var" [.ident "--c"]])] 100
+        [.fn "var" [.ident "--a"], .fn "f" [.fn "var" [.ident "--d"], .lit ",", .fn "var" [.ident "--d"]],
+         .fn "var" [.ident "--u", .lit ",", .fn "var" [.ident "--d"]]]
+      = .toks [.dim "1" "px", .dim "1" "px", .fn "f" [.dim "1" "px", .lit ",", .dim "1" "px"], .dim "1" "px"] := by
+  constructor
+  · c08_eval
+  · rfl
+
 /-- tokens without var() are left alone by the pending-value loop -/
 theorem no_var_identity (env : Bindings) (ts : List Tok) (h : hasVarList ts = false) :
     solveTokens env ts = ts := resList_plain _ _ ts h
